@@ -36,7 +36,7 @@ let () =
               else if starts "probe:" t then ops := `Probe (unhex (after "probe:" t)) :: !ops
               else if starts "argv:" t then
                 argv := List.map unhex (List.filter (fun x -> x <> "-") (String.split_on_char ',' (after "argv:" t)))
-              else if starts "S:" t then unsupported := true      (* sub-group arguments: outside the model *)
+              else if starts "S:" t || starts "late:" t then unsupported := true      (* sub-group arguments: outside the model *)
               else if t = "model:pinned" then pinned := true) toks;
           let args = List.rev !args in
           let abbr = !flags land 0x80 = 0 in
